@@ -113,8 +113,14 @@ def _guard_only(loop: ast.For):
 
 def _feeds_only_guards(node, chain, parents):
     """a comprehension over an unordered source whose result is bound to a local that is only tested (if x: / len(x) / in a raise message)"""
-    assign = next((c for c in chain[:2] if isinstance(c, ast.Assign) and len(c.targets) == 1 and isinstance(c.targets[0], ast.Name)), None)
-    if assign is None or assign.value is not node:
+    assign = next((c for c in chain[:3] if isinstance(c, ast.Assign) and len(c.targets) == 1 and isinstance(c.targets[0], ast.Name)), None)
+    if assign is None:
+        return False
+    direct = assign.value is node
+    # first-offender idiom: x = next((e for e in S if cond), None) / any(...) / all(...)
+    wrapped = isinstance(assign.value, ast.Call) and isinstance(assign.value.func, ast.Name) and assign.value.func.id in ("next", "any", "all", "list", "sorted") \
+        and assign.value.args and assign.value.args[0] is node
+    if not (direct or wrapped):
         return False
     name = assign.targets[0].id
     fn = next((c for c in chain if isinstance(c, (ast.FunctionDef, ast.AsyncFunctionDef))), None)
@@ -125,26 +131,37 @@ def _feeds_only_guards(node, chain, parents):
         fn = p
     if fn is None:
         return False
-    uses = [n for n in ast.walk(fn) if isinstance(n, ast.Name) and n.id == name and isinstance(n.ctx, ast.Load)]
-    if not uses:
+    def only_guards(nm, depth=0, scope=None):
+        uses = [n for st_ in (scope if scope is not None else [fn]) for n in ast.walk(st_) if isinstance(n, ast.Name) and n.id == nm and isinstance(n.ctx, ast.Load)]
+        for u in uses:
+            p, okuse, hops = parents.get(u), False, 0
+            prev = u
+            while p is not None and hops < 8:
+                if isinstance(p, ast.If) and (prev is p.test or any(prev is x for x in ast.walk(p.test))):
+                    okuse = True
+                    break
+                if isinstance(p, (ast.Raise, ast.Assert)):
+                    okuse = True
+                    break
+                if isinstance(p, ast.Assign) and depth < 2 and p.value is prev and all(isinstance(x, (ast.Name, ast.Tuple, ast.List, ast.expr_context)) for t in p.targets for x in ast.walk(t)):
+                    # unpacked / copied into locals that are themselves only tested or reported
+                    # (the unpacked names are looked at in the rest of the block they are bound in: the same name may be reused elsewhere)
+                    holder = parents.get(p)
+                    rest = None
+                    for fld in ("body", "orelse", "finalbody"):
+                        lst = getattr(holder, fld, None)
+                        if isinstance(lst, list) and any(x is p for x in lst):
+                            rest = lst[[i for i, x in enumerate(lst) if x is p][0] + 1:]
+                    okuse = rest is not None and all(only_guards(x.id, depth + 1, rest) for t in p.targets for x in ast.walk(t) if isinstance(x, ast.Name))
+                    break
+                if isinstance(p, (ast.FunctionDef, ast.For, ast.Return, ast.Yield, ast.Assign)):
+                    break
+                prev, p = p, parents.get(p)
+                hops += 1
+            if not okuse:
+                return False
         return True
-    for u in uses:
-        p, okuse, hops = parents.get(u), False, 0
-        prev = u
-        while p is not None and hops < 8:
-            if isinstance(p, ast.If) and (prev is p.test or any(prev is x for x in ast.walk(p.test))):
-                okuse = True
-                break
-            if isinstance(p, (ast.Raise, ast.Assert)):
-                okuse = True
-                break
-            if isinstance(p, (ast.FunctionDef, ast.For, ast.Return, ast.Yield, ast.Assign)):
-                break
-            prev, p = p, parents.get(p)
-            hops += 1
-        if not okuse:
-            return False
-    return True
+    return only_guards(name)
 
 
 def check_iterations(ctx: core.Ctx, g: GenInfo, rule="GEN-ITER"):
